@@ -347,6 +347,12 @@ func cmdCheck(args []string) int {
 			fmt.Printf("  %-8s %-60s %s %.2fs %s\n", ob.Status, ob.Name, ob.Solver, ob.Time, ob.Pos)
 		}
 	}
+	for _, ob := range obs {
+		if ob.Status == "error" {
+			fmt.Fprintf(os.Stderr, "gowp: solver rejected the script of obligation %s (engine error, not a verdict):\n%s\n", ob.Name, strings.SplitN(ob.Output, "\n", 4)[0])
+			return 2
+		}
+	}
 	violations := 0
 	known := 0
 	replayDir := filepath.Join(*verif, "replays", pc.ID)
